@@ -747,11 +747,34 @@ READINGS (weaker reading taken where the English is ambiguous)
   (GraphOutputs.__setitem__ clears the old value's flag/owner before _set_graph raises for the new one: a C01-type
   defect, reported to the orchestrator, not a C03 finding); then (c) is not enforced and py_flag is false.
 * ir_version < 10 with functions uses the experimental value-info format the model leaves out: Coq comparison
-  skipped (`unmodelled`), oracle still runs.  Device configurations (IR 11) are not generated: modelled-not-verified.
+  skipped (`unmodelled`), oracle still runs.
+* DEVICE CONFIGURATIONS (statement: "from IR version 11").  Generated through the public API:
+  ir.Model(device_configurations=...), model.add_device_configuration / remove_device_configuration(cascade or not,
+  by name or by object), Node.set_pipeline_stage (stage 0 included), Node.shard (several axes, device indices,
+  optional stage), explicit ir.NodeDeviceConfiguration / ShardingSpec objects (device groups through
+  index_to_device_group_map, fused and symbolic SimpleShardedDim incl. SymbolicDim(None)), on nodes of the main
+  graph, of subgraphs and of functions; edits: shard / set_stage / add / remove and replace_input_with on a sharded
+  input (drops the spec).  About half of the IR-11 models carry them, plus some IR-10 models.  ORACLE: the snapshot
+  records them (objects by identity), IsoCheck compares the model configurations in order (name, num_devices,
+  device names) and, per node, the configuration (must be THE corresponding object of the round-tripped model),
+  the pipeline stage (None is not 0), every sharding spec (value through the bijection, device tuple, groups,
+  sharded dims with int vs symbolic kept apart).  Reading: BELOW IR 11 device configurations are not part of the
+  round trip - the serializer drops the model's and those of the nodes it reaches with the model's IR version
+  (documented, with a warning); no claim is enforced there.  OBSERVED (reported, not enforced): at IR < 11 the nodes
+  of SUBGRAPHS keep their device configurations in the proto because serialize_attribute_into ->
+  serialize_graph_into does not pass model_ir_version down, unlike the nodes of the main graph and of functions.
+  States outside the hypothesis (py_serializable conditions device-*, only at IR >= 11): a node configuration
+  referencing a configuration object that is not registered on the model (dangling after a non-cascading remove;
+  it reads back as a placeholder with num_devices=0), a sharding spec without a named value or on a value that is
+  no input/output of its node (the leaf serializer raises).  COQ: device configurations are part of the opaque
+  node token / model token (PART 1 node_tok / model_tok on the IR side, ProtoConv.node / ProtoConv.model on the
+  proto side, both keyed from IR-level objects, values and configurations by NAME, only from IR 11 on); states
+  outside the hypothesis skip the Coq comparison (`unmodelled`), so does a proto that still carries node
+  configurations below IR 11.
 
 MODELLED, NOT VERIFIED: leaf payloads are tokens from the library's own leaf (de)serializers (C02/C04); the leaf
-normalisation table (Model.norm_pay) is supplied per case; recursion limit (fuel); quantization annotations; device
-configurations; per-subgraph opset imports.
+normalisation table (Model.norm_pay) is supplied per case; recursion limit (fuel); quantization annotations; the
+content of device configurations (opaque part of the node / model tokens); per-subgraph opset imports.
 
 FINDINGS
 * shape-without-type (known_findings.d/C03.json, proposed_fixes/C03-shape-without-type.diff; FIXED in /repo by
@@ -783,6 +806,10 @@ MUTANTS (scratch worktree of /repo at 3fc58a7, quick tier, seed 0; every one rep
   m6 value_info also emitted for initializers that are graph inputs  -> agree_ser only (same remark)
   m7 serialize_node_into names an unnamed node (mutates the IR)      -> agree_ser + agree_after_ser; oracle side-effect:n.name
   m8 node doc_string dropped when the node has metadata    -> agree_ser + agree_roundtrip; oracle iso:doc (5-op replay)
+SEEDED CHANGES (/verif/seeded, tools/seed_eval.py): C03-m1, C03-m2 detected with a concrete replay; C03-m3
+  (pipeline_stage written only when truthy: stage 0 reads back as None) was NOT detected before device
+  configurations were generated; now detected by agree_ser + agree_roundtrip and by the oracle
+  ("iso:device-stage: ... pipeline stage 0 vs None", 6-op shrunk replay).
 """
 
 # --------------------------------------------------------------------------- recipes: building IR models through the public API
@@ -1575,7 +1602,7 @@ class Gen:
                  ("gout_insert", 1), ("init_set", 3), ("init_register", 2), ("init_pop", 2), ("set_const", 2),
                  ("node_set", 4), ("node_meta", 1), ("attr_add", 3), ("attr_pop", 1), ("graph_set", 2),
                  ("graph_meta", 1), ("opset", 1), ("model_set", 1), ("model_meta", 1), ("func_set", 1),
-                 ("shard", 4), ("devcfg_remove", 1), ("devcfg_add", 1), ("replace_sharded_input", 2)]
+                 ("shard", 4), ("devcfg_remove", 3), ("devcfg_add", 1), ("replace_sharded_input", 3)]
         k = r.choices([x for x, _ in kinds], [w for _, w in kinds])[0]
         gid = self.pick_graph()
         g = self.env.g[gid]
